@@ -49,6 +49,9 @@ type SyncScenario struct {
 	TwinFirst int `json:"twin_first,omitempty"`
 	// TwinLate: the Head() answer arrives after the twin has been synced (2 s against 300 ms of virtual time)
 	TwinLate bool `json:"twin_late,omitempty"`
+	// TwinMid > 0: the range answer takes 1 s, store writes take 50 ms each and the Head() answer arrives
+	// TwinMid ms after the range answer - while the synced range or the twin itself is being written
+	TwinMid int `json:"twin_mid_ms,omitempty"`
 	// Sched, when set, selects the schedule engine (c03sched_test.go); the other fields are unused then.
 	Sched *SyncSchedScenario `json:"sched,omitempty"`
 }
@@ -112,6 +115,9 @@ func genSync(adversarial bool) func(t *rapid.T) SyncScenario {
 		if adversarial {
 			s.TwinFirst = rapid.SampledFrom([]int{0, 0, 0, 1, 2, 3, 6}).Draw(t, "twinfirst")
 			s.TwinLate = s.TwinFirst > 0 && rapid.Bool().Draw(t, "twinlate")
+			if s.TwinFirst > 0 && !s.TwinLate {
+				s.TwinMid = rapid.SampledFrom([]int{0, 0, 20, 70, 120}).Draw(t, "twinmid")
+			}
 		}
 		return s
 	}
@@ -635,7 +641,7 @@ func runSync(t *testing.T, s SyncScenario, c03 bool) (res Result) {
 		}
 
 		if c03 && s.TwinFirst > 0 {
-			if e.twinFirst(ctx, &res, s.TwinFirst, s.TwinLate, checkSafety) {
+			if e.twinFirst(ctx, &res, s.TwinFirst, s.TwinLate, s.TwinMid, checkSafety) {
 				res.NonTrivial = true
 				res.label("adv=twin_first")
 				synctest.Wait()
@@ -743,12 +749,15 @@ func runSync(t *testing.T, s SyncScenario, c03 bool) (res Result) {
 // Syncer keeps for height h, the Store must hold exactly one header per height: canonical below h, F or T at h,
 // nothing else in the datastore. The canonical chain cannot grow past F, so the history ends here.
 // Reports true when the event ran to its verdict-free end (false: skipped, or a violation was recorded).
-func (e *syncEnv) twinFirst(ctx context.Context, res *Result, k int, late bool, checkSafety func(string) bool) bool {
+func (e *syncEnv) twinFirst(ctx context.Context, res *Result, k int, late bool, mid int, checkSafety func(string) bool) bool {
 	tag := "terminal twin_first"
 	hd, rd := 300*time.Millisecond, 2*time.Second
 	if late {
 		tag = "terminal twin_first(late answer)"
 		hd, rd = 2*time.Second, 300*time.Millisecond
+	} else if mid > 0 {
+		tag = fmt.Sprintf("terminal twin_first(answer %d ms after the range)", mid)
+		hd, rd = time.Second+time.Duration(mid)*time.Millisecond, time.Second
 	}
 	chain := e.chain
 	e.getter.set(func() { e.getter.RangeMax, e.getter.RangeErrs, e.getter.RangeDelay, e.getter.HeadMode = 0, 0, 0, "" })
@@ -771,7 +780,48 @@ func (e *syncEnv) twinFirst(ctx context.Context, res *Result, k int, late bool, 
 	F := T.Clone()
 	F.Salt = 4545
 	F.Seal()
+	if mid > 0 {
+		// open finding C03/head-answer-while-twin-in-write-queue: explained only if, in this timing, the datastore
+		// ends up holding both the twin and the trusted peers' header of height h
+		defer func() {
+			if res.Verdict == "" || !strings.HasPrefix(res.Verdict, "terminal twin_first(answer") {
+				return
+			}
+			nF, nT := 0, 0
+			for key, v := range e.mem.Snapshot() {
+				name := strings.TrimPrefix(key, storePrefix+"/")
+				if name == key || name == "head" || name == "tail" || isDigits(name) {
+					continue
+				}
+				hd := new(vh.Header)
+				if hd.UnmarshalBinary(v) != nil {
+					continue
+				}
+				if bytes.Equal(hd.Hash(), F.Hash()) {
+					nF++
+				}
+				if bytes.Equal(hd.Hash(), T.Hash()) {
+					nT++
+				}
+			}
+			res.Verdict += fmt.Sprintf(" [datastore: twin x%d, trusted header x%d]", nF, nT)
+			servedF := false
+			c1, cn := vctx(time.Second)
+			if g, err := e.st.GetByHeight(c1, F.H); err == nil && bytes.Equal(g.Hash(), F.Hash()) {
+				servedF = true
+			}
+			cn()
+			// both headers of height h were written: the trusted peers' header is in the datastore, the twin
+			// is there too or is what the Store serves for the height
+			if nT == 1 && (nF == 1 || servedF) {
+				res.Known = "C03/head-answer-while-twin-in-write-queue"
+			}
+		}()
+	}
 	e.getter.set(func() { e.getter.HeadDelay, e.getter.RangeDelay = hd, rd })
+	if mid > 0 {
+		e.slow.setDelay(50 * time.Millisecond)
+	}
 	var wg sync.WaitGroup
 	wg.Add(1)
 	var hh *vh.Header
@@ -785,6 +835,7 @@ func (e *syncEnv) twinFirst(ctx context.Context, res *Result, k int, late bool, 
 	verr := e.sub.deliver(gctx, F)
 	gcancel()
 	wg.Wait()
+	e.slow.setDelay(0)
 	e.getter.set(func() { e.getter.HeadDelay, e.getter.RangeDelay = 0, 0 })
 	if herr != nil {
 		res.failf("%s: Syncer.Head failed with an honest getter: %v", tag, herr)
@@ -887,6 +938,9 @@ func (e *syncEnv) twinFirst(ctx context.Context, res *Result, k int, late bool, 
 	}
 	if late {
 		res.label("twin_first_late_answer")
+	}
+	if mid > 0 {
+		res.label("twin_first_answer_during_store_writes")
 	}
 	if head.H == h {
 		if chain.IsCanonical(head) {
